@@ -2,16 +2,27 @@
 
 Model: lean/HydroVerif/Model/C01.lean (13 classes: forward / backward / jacobian, the inner-BoxCox2
 re-synchronisation of BoxCox1lam / BoxCox1nu / BoxCox2sym, unset constants, Softmax input checks,
-backward_censored); theorems: lean/HydroVerif/Props/C01.lean (both round-trip directions over the reals,
-every class, every branch).
+backward_censored) and lean/HydroVerif/Model/C01Obj.lean (the transform OBJECT: constructors with their validation,
+the parameter / constant Vectors with bounds, defaults and NaN policy, every way of assigning, refused assignments,
+reset, read-back, method calls on the current values, get_transform); theorems: lean/HydroVerif/Props/C01.lean (both
+round-trip directions over the reals, every class, every branch; object invariant and round trip after ANY history;
+range / sign / exact-zero statements under an arbitrary monotone rounding).
 Correspondence: `forward`, `backward`, `jacobian`, `backward_censored` of the real classes (built directly and
 through `get_transform`) against the Float instance of the model, element by element. The tolerance of each
 element is the model's own first-order error bound (the driver evaluates the model a second time over
 value/bound pairs: 2.3e-16 per arithmetic operation, 1e-13 per transcendental call, propagated through the
 formula), i.e. 1e-13 relative scaled by the conditioning of the formula at that input; NaN must match exactly.
+Object histories (`hist` requests): a real object and `mkObj` + `TObj.run` of the model are driven through the same
+operation list; after every operation the parameter, constant and inner-BoxCox2 values and the read-backs `t[k]` are
+compared bit for bit, accepted / refused / raised must agree, and every call's values are compared like the single calls.
+`getkw` requests compare `get_transform(name, **kw)` with `getTransform`.
 Oracle (failing-input search, on the real code only, independent of the model): backward(forward(x)) = x and
 forward(backward(y)) = y to 1e-6 relative to the natural scale of the argument, inside the conditioning
-region documented in `REGIONS` below.
+region documented in `REGIONS` below (the scale is the magnitude below which the formula of the class itself stops
+being relatively accurate: transforms that fix 0 and are linear there - Manly, Yeo-Johnson, Sinh, Logit at lower = 0 -
+are judged relative to |x| down to ~1e-7..1e-8 of the natural unit, so a small-argument shortcut that is only
+absolutely accurate is a failing input); a REFUSED assignment (the call raised) must leave every parameter / constant
+as it was, and the round trip must keep holding at the last accepted setting (`<Class>/rejected_assignment/state_changed`).
 Cases: per class, parameter vectors at declared bounds, defaults, exact branch values (lam = 0, +-1e-10,
 +-1.1e-10, 1e-8, 2, 2+-2.001e-5 ...), non-default mininu / minilam / base, unset constants (error expected), then
 random ones; inputs across the domain on a logarithmic grid from the edge, on the edge, outside (NaN expected),
@@ -20,6 +31,12 @@ setting (chosen at random), and objects are reused: histories of parameter chang
 set-params / forward / backward / jacobian / backward_censored in random order, each call compared with the model
 whose inner BoxCox2 state is what the previous calls left (always for BoxCox1lam / BoxCox1nu / BoxCox2sym, every
 third configuration for the other classes); for Softmax, 2-D arrays of 1..4 rows x 1..7 columns incl. rejected ones.
+Object histories: per class, constructor options (defaults, both ends of the accepted range, just outside: rejected), then
+12-16 operations: assignments by attribute / item / vector item / whole vector with values inside, on and outside the
+bounds (clipped), from a caller array that is overwritten afterwards; fault paths: NaN into a parameter by each route, a
+whole vector holding a NaN next to new valid values, vectors of the wrong length, unknown keys; constants unset again
+(NaN), reset, junk attributes; forward / backward / jacobian / backward_censored in between, with forward -> refused
+assignment -> backward as the scripted opening of every third history.
 A case (one element of one call) is non-trivial when the reply is a finite number.
 """
 import json
@@ -36,7 +53,7 @@ INF = float("inf")
 
 REGIONS = """
 x-direction |x' - x| <= 1e-6 * max(|x|, Sx); y-direction |y' - y| <= 1e-6 * max(|y|, Sy).
-Logit      x in (lower, upper), Sx = max(|lower|, upper-lower); y: |y| <= 10 and |lower| <= 100 (upper-lower), Sy = 1
+Logit      x in (lower, upper), Sx = |lower| + 1e-7 (upper-lower); y: |y| <= 10 and |lower| <= 100 (upper-lower), Sy = 1
 Log        x + nu > 0 (log finite), Sx = |nu|; y: exp(bf y) >= 1e-6 |nu|, |bf y| <= 700, Sy = 1/|bf|
 BoxCox*    x + nu > 0, |lam ln(x+nu)| <= 13.8 (power branch), Sx = |nu|; y: 0 < lam y + 1, |ln(lam y + 1)| <= 13.8,
            backward(y) + nu >= 1e-6 |nu|, Sy = 1; BoxCox2sym (s = |x| + nu) also |lam ln nu| <= 13.8,
@@ -44,13 +61,17 @@ BoxCox*    x + nu > 0, |lam ln(x+nu)| <= 13.8 (power branch), Sx = |nu|; y: 0 < 
            ((s/nu)^|lam| - 1)/|lam|), nu > 0 (or nu = 0 with lam > EPS, where BC(0) = -1/lam), Sy = max(1, |BC(0)|)
            1e-10 < |lam| <= 1e-9 loses up to ~4e-6 by cancellation: known finding */power/lam_just_above_switch
 YeoJohnson w = nu + scale x: |lam ln(1+w)| <= 13.8 (w >= EPS), |(2-lam) ln(1-w)| <= 13.8 (w < EPS),
-           Sx = (1+|nu|)/scale; y: argument of the power positive with |ln| <= 13.8, |nu| <= 1e6 (1+|w|),
-           |w|/scale <= 1e290 (no overflow), Sy = 1
+           Sx = (|nu| + 1e-7 k)/scale, k = 1 on a log branch, max(1, 1/|exponent|) on a power branch (the map fixes w = 0:
+           relative accuracy down to |w| ~ 1e-7 k); y: argument of the power positive with |ln| <= 13.8, |nu| <= 1e6 (1+|w|),
+           |w|/scale <= 1e290 (no overflow), Sy = min(1, 1e-7 k + 1e-8 |nu| (1+|w|)^(exponent-1))
 LogSinh    w = a + b x/xmax >= 1e-4, w <= 1e6, Sx = xmax max(a/b, |x/xmax|); y: b y >= ln sinh 1e-4, Sy = 1/b
 Reciprocal 1e-300 < x + nu < 1e300, any mininu, Sx = |nu|; y < 0, -1/y finite and >= 1e-6 |nu|, Sy = 0
 Softmax    entries > 0 (>= 1e-300), sum <= 1 - EPS, Sx = 0 (pure relative); y: |y_i| <= 700, sum exp(y) <= 1e6, Sy = 1
-Sinh       all x (|u| <= 1e300), Sx = |nu|; y: |y| <= 700, |nu| scale <= 1e6 cosh y, cosh(y)/scale <= 1e290, Sy = 1
-Manly      |lam| <= EPS, or |lam| >= 1e-3 with |lam x/xmax| <= 10, Sx = xmax; y: 1 + lam y > 0, |ln(1+lam y)| <= 10, Sy = 1
+Sinh       all x (|u| <= 1e300), Sx = |nu|; y: |y| <= 700, |nu| scale <= 1e6 cosh y, cosh(y)/scale <= 1e290,
+           Sy = min(1, 1e-8 |nu| scale / cosh y)
+Manly      |lam| <= EPS (Sx = Sy = 0: pure relative), or |lam| >= 1e-3 with |lam x/xmax| <= 10, Sx = 1e-8 xmax/|lam| (the map
+           fixes 0 and is linear there: relative accuracy down to |lam x/xmax| ~ 1e-8); y: 1 + lam y > 0, |ln(1+lam y)| <= 10,
+           Sy = 1e-8/|lam|
 """
 
 ERRMAP = [("nu is nan", "nuUnset"), ("lam is nan", "lamUnset"), ("xmax is nan", "xmaxUnset"),
@@ -270,6 +291,15 @@ class Obj:
             o.bc = [float(t.BC.params.values[0]), float(t.BC.params.values[1])]
         return o
 
+    @classmethod
+    def around(cls_, np, cls, ctor, t):
+        """an `Obj` around an existing transform object `t` of class `cls` built with the constructor options `ctor`"""
+        o = cls_.__new__(cls_)
+        o.cls, o.ctor, o.via_get, o.requested, o.t, o.np = cls, dict(ctor), False, {}, t, np
+        if cls in STATEFUL:
+            o.bc = [float(t.BC.params.values[0]), float(t.BC.params.values[1])]
+        return o
+
     def P(self):
         """actual (clipped) values held by the object"""
         t = self.t
@@ -479,6 +509,15 @@ def y_extra(cls, P, rng, n):
 # ------------------------------------------------------------------------------------------------------
 # the property oracle's regions (see REGIONS); every function returns None (outside / not judged) or
 # (scale, branch tag, known-finding predicate or None)
+def yj_k(lam, pos):
+    """Yeo-Johnson: amplification of an absolute 1.1e-16 in 1 + |w| by the `(q - 1)/e` form of the branch in use"""
+    kp = 1.0 if abs(lam) <= 1e-8 else max(1.0, 1 / abs(lam))
+    kn = 1.0 if abs(lam - 2) <= 1e-8 + 2e-5 else max(1.0, 1 / abs(2 - lam))
+    if pos is None:          # next to the switch (|w| or |y| within 4 EPS) the inverse of either branch may be applied
+        return max(kp, kn)
+    return kp if pos else kn
+
+
 def region_x(cls, P, x):
     if not fin(x):
         return None
@@ -489,11 +528,13 @@ def region_x(cls, P, x):
         up = P["lower"] + d
         if not (P["lower"] < x < up):
             return None
-        return (max(abs(P["lower"]), d), "logit", None)
+        # (x - lower)/delta is exact to 1.1e-16 relative and 1/(1 - v) - 1 loses 2.2e-16 absolute in v: relative to x down
+        # to v ~ 1e-7 when lower = 0
+        return (abs(P["lower"]) + 1e-7 * d, "logit", None)
     if cls == "Log":
         s = x + P["nu"]
-        if not (s > 0 and fin(math.log(s))):
-            return None
+        if not (s > 0 and fin(math.log(s))) or P.get("bf", 1.0) == 0:
+            return None          # base = 1 (log(base) = 0) is not a logarithm base: theorem hypothesis Log.bf p != 0
         return (abs(P["nu"]), "log", None)
     if cls in ("BoxCox2", "BoxCox1lam", "BoxCox1nu", "BoxCox2sym"):
         nu, lam = P["nu"], P["lam"]
@@ -529,7 +570,9 @@ def region_x(cls, P, x):
             if abs((2 - lam) * math.log1p(-w)) > 13.8:
                 return None
             tag = "neg-log" if abs(lam - 2) <= 1e-8 + 2e-5 else "neg-power"
-        return ((1 + abs(nu)) / sc, tag, None)
+        # the map fixes w = 0 and is linear there: accuracy is relative to max(|x|, |nu|/scale) (forming nu + x*scale)
+        # down to |w| ~ 1e-7 k, where 1 + w and (1+w)**e - 1 lose 1.1e-16 k absolute (k = 1/|exponent| on a power branch)
+        return ((abs(nu) + 1e-7 * yj_k(lam, None if abs(w) <= 4 * EPS else w >= EPS)) / sc, tag, None)
     if cls == "LogSinh":
         a, b, xm = math.exp(P["loga"]), math.exp(P["logb"]), P["xmax"]
         if xm != xm:
@@ -554,10 +597,12 @@ def region_x(cls, P, x):
         if xm != xm:
             return None
         if abs(lam) <= EPS:
-            return (xm, "identity", None)
+            return (1e-300, "identity", None)          # x/xmax, xmax*y: relative accuracy at every magnitude
         if abs(lam) < 1e-3 or abs(lam * x / xm) > 10:
             return None
-        return (xm, "exp", None)
+        # (exp(v) - 1)/lam, v = lam x/xmax, maps 0 to 0 and is linear there: the round trip is accurate RELATIVE to x
+        # down to |v| ~ 1e-8 (exp(v) - 1 and 1 + lam y each lose 1.1e-16 absolute in v), absolute below
+        return (xm * 1e-8 / abs(lam), "exp", None)
     raise KeyError(cls)
 
 
@@ -639,7 +684,12 @@ def region_y(cls, P, y, x):
                 tag = "neg-power"
         if not fin(w) or abs(nu) > 1e6 * (1 + abs(w)) or abs(w) > 1e290 * sc:
             return None          # (w - nu)/scale must not overflow
-        return (1.0, tag, None)
+        # y ~ w near 0: relative to y down to 1e-7 k (see region_x); (w - nu)/scale and nu + x*scale lose 2.2e-16 |nu| in w,
+        # i.e. 2.2e-16 |nu| dy/dw in y, dy/dw = (1 + |w|)**(e - 1)
+        e_ = lam if y >= EPS else 2 - lam
+        jac = spow(1 + abs(w), e_ - 1)
+        near = abs(y) <= 4 * EPS or abs(w) <= 4 * EPS
+        return (min(1.0, 1e-7 * yj_k(lam, None if near else y >= EPS) + 1e-8 * abs(nu) * jac), tag, None)
     if cls == "LogSinh":
         b = math.exp(P["logb"])
         if P["xmax"] != P["xmax"]:
@@ -657,19 +707,20 @@ def region_y(cls, P, y, x):
     if cls == "Sinh":
         if abs(y) > 700 or abs(P["nu"]) * P["scale"] > 1e6 * math.cosh(y) or math.cosh(y) > 1e290 * P["scale"]:
             return None          # sinh(y)/scale must not overflow
-        return (1.0, "sinh", None)
+        # relative to y (sinh / arcsinh fix 0) down to what sinh(y)/scale + nu loses: 1.1e-16 |nu| scale / cosh(y) in y
+        return (min(1.0, 1e-300 + 1e-8 * abs(P["nu"]) * P["scale"] / math.cosh(y)), "sinh", None)
     if cls == "Manly":
         lam, xm = P["lam"], P["xmax"]
         if xm != xm:
             return None
         if abs(lam) <= EPS:
-            return (1.0, "identity", None) if abs(y) < 1e300 else None
+            return (1e-300, "identity", None) if abs(y) < 1e300 else None
         if abs(lam) < 1e-3:
             return None
         q = 1 + lam * y
         if not q > 0 or abs(math.log(q)) > 10:
             return None
-        return (1.0, "exp", None)
+        return (1e-8 / abs(lam), "exp", None)      # relative to y down to |lam y| ~ 1e-8 (see region_x)
     raise KeyError(cls)
 
 
@@ -707,8 +758,8 @@ def in_domain(cls, op, P, v):
             return cls != "BoxCox2sym" or nu > 0
         u = v
         if cls == "BoxCox2sym":
-            if not (nu > 0 or lam > EPS):
-                return False
+            if nu < 0 or not (nu > 0 or lam > EPS):
+                return False          # BC(0) does not exist: no image
             u = abs(v) + (spow(nu, lam) - 1) / lam
             return lam * u + 1 > 0 or v == 0
         return lam * u + 1 > 0
@@ -754,7 +805,8 @@ def body(ctx):
     rng = ctx.rng
     reqs, checks = [], []      # checks[i] = (impl status, impl payload, case dict, expected model state or None)
     stats = {"unconstrained": 0, "elements": 0, "outside_domain_not_compared": 0, "max_diff_over_bound": 0.0,
-             "clones": 0, "clone_unavailable": 0}
+             "clones": 0, "clone_unavailable": 0, "rounded_statements_checked": 0}
+    margins = {}
 
     def submit(o, op, arr, censor=None, note="", raw=None):
         """run one call on the real object, queue the same call for the model; returns the impl result"""
@@ -788,6 +840,11 @@ def body(ctx):
         tol = 1e-6 * max(abs(a), scale)
         ok = fin(back) and abs(back - a) <= tol
         if ok:
+            if tol > 0 and known is None:      # how much of the tolerance the unchanged code uses (evidence: `oracle_margin`)
+                mk = f"{cls}/{direction}/{tag}"
+                r_ = abs(back - a) / tol
+                if r_ > margins.get(mk, 0.0):
+                    margins[mk] = r_
             return
         if known == "lam_just_above_switch" and fin(back) and abs(back - a) <= 1e-4 * max(abs(a), scale):
             ctx.finding(f"{cls}/{tag}/{known}",
@@ -871,6 +928,20 @@ def body(ctx):
         elif first == "jac":
             submit(o, "jac", xs, note=(note + " jacobian-first").strip())
         st, yl = xdir(o, P, xs, note)
+        if cls == "BoxCox2sym" and st == "ok":
+            # BoxCox2sym.rounded_zero / rounded_odd (Props/C01.lean): exact in floating point, whatever the rounding
+            xf = [v for v in xs if fin(v)]
+            s1, ya = o.call("fwd", xf + [0.0])
+            s2, yb = o.call("fwd", [-v for v in xf] + [-0.0])
+            o.after_call(s2)
+            if s1 == "ok" and s2 == "ok":
+                stats["rounded_statements_checked"] += 1
+                bad = [(a_, float(u), float(w)) for a_, u, w in zip(xf + [0.0], ya, yb)
+                       if not ((u != u and w != w) or float(u) == -float(w))]
+                if bad or float(ya[-1]) != 0.0:
+                    ctx.disagree("BoxCox2sym.forward is not exactly odd / does not map 0 to 0: the floating-point code does not "
+                                 "meet the rounded-model statements BoxCox2sym.rounded_zero / rounded_odd",
+                                 {"params": P, "x, f(x), f(-x)": bad[:3], "f(0)": float(ya[-1])})
         if first != "jac":
             submit(o, "jac", xs, note=note)
         if st != "ok":
@@ -1106,6 +1177,344 @@ def body(ctx):
         for i, (ctor, params) in enumerate(cfgs):
             guarded(cls, "exercise", lambda: one_config(cls, i, ctor, params))
 
+    # ---------------- object histories against the object model (Model/C01Obj: mkObj, TObj.step / TObj.run): every way of
+    # assigning (attribute, item, vector item, whole vector; inside, on and outside the bounds), REJECTED assignments
+    # (NaN into a parameter by each route, a vector holding a NaN next to new valid values, vectors of the wrong length,
+    # unknown keys), constants unset again, reset, and calls in between. After EVERY operation the parameter, constant and
+    # inner-BoxCox2 values of the real object are compared bit for bit with the model's; a rejected operation must leave
+    # them exactly as they were (oracle), and backward(forward(x)) = x must keep holding at the last accepted setting when
+    # a rejected assignment sits between the two calls (oracle).
+    HCLS = ["Identity", "Logit", "Log", "BoxCox2", "BoxCox1lam", "BoxCox1nu", "BoxCox2sym", "YeoJohnson", "LogSinh",
+            "Reciprocal", "Sinh", "Manly"]
+    hist_reqs, hist_impl = [], []
+
+    def hbounds(cls, name, ctor):
+        """declared bounds of one parameter / constant (None = unbounded), the harness' own table"""
+        mininu, minilam = ctor.get("mininu", EPS), ctor.get("minilam", 0.0)
+        if name == "nu":
+            return (None, None) if cls in ("YeoJohnson", "Sinh") else (mininu, None)
+        if name == "lam":
+            return (-1.0, 3.0) if cls == "YeoJohnson" else (-5.0, 5.0) if cls == "Manly" else (minilam, 3.0)
+        if name == "scale":
+            return (1e-5, None) if cls == "YeoJohnson" else (1e-10, None)
+        return {"lower": (None, None), "logdelta": (-10.0, 10.0), "loga": (-20.0, 0.0), "logb": (-5.0, 5.0),
+                "xmax": (EPS, None)}[name]
+
+    def hvalue(cls, name, ctor):
+        """a value to assign: inside the bounds (the class's own pools), on a bound, outside (clipped by the object)"""
+        lo, hi = hbounds(cls, name, ctor)
+        r = rng.random()
+        if r < 0.15 and lo is not None:
+            return lo - rng.choice([1e-12, 0.5, 10.0]) * max(1.0, abs(lo))
+        if r < 0.30 and hi is not None:
+            return hi + rng.choice([1e-12, 0.5, 10.0]) * max(1.0, abs(hi))
+        if r < 0.36 and lo is not None:
+            return lo
+        if r < 0.42 and hi is not None:
+            return hi
+        cand = [pp[name] for _, pp in configs(cls, rng, 8) if pp.get(name) is not None]
+        return float(rng.choice(cand))
+
+    def hctor(cls, k):
+        """constructor options: defaults first, then the ends of the accepted range and values just outside it"""
+        ctor = {}
+        if cls in ("Log", "BoxCox2", "BoxCox1lam", "BoxCox1nu", "BoxCox2sym", "Reciprocal"):
+            mn = [None, 0.5, 0.0, -10.0, 1e-3][k % 5] if k < 10 else rng.choice([None, 10 ** rng.uniform(-6, 1), -rng.random()])
+            if mn is not None:
+                ctor["mininu"] = mn
+        if cls in ("BoxCox2", "BoxCox1lam", "BoxCox1nu", "BoxCox2sym"):
+            ml = [None, -3.0, 1.0, -1.0, 0.5, 1 + 5e-11, -3.0000001, 1.001, 3.5, 1 + 2e-10][k % 10] if k < 20 else \
+                rng.choice([None, rng.uniform(-3, 1), rng.uniform(-3, 1), rng.uniform(-4, 4)])
+            if ml is not None:
+                ctor["minilam"] = ml
+        if cls == "Log":
+            b = [None, 10.0, 2.0, 0.5, -1.0, 0.0, 1.0][k % 7] if k < 14 else rng.choice([None, 10 ** rng.uniform(-3, 3), -rng.random()])
+            if b is not None:
+                ctor["base"] = b
+        return ctor
+
+    def tstate(t):
+        """parameter, constant and inner-BoxCox2 values, then t[k] for every parameter / constant name"""
+        f = lambda vec: [float(v) for v in vec.values]
+        reads = [float(t[str(n)]) for n in list(t.params.names) + list(t.constants.names)]
+        return [f(t.params), f(t.constants), f(t.BC.params) if hasattr(t, "BC") else [], reads]
+
+    def hx(st):
+        return [[C.f2h(v) for v in l] for l in st]
+
+    def one_history(cls, k, nops):
+        ctor = hctor(cls, k)
+        head = (f"hist {cls} {C.f2h(ctor.get('mininu', EPS))} {C.f2h(ctor.get('minilam', 0.0))} "
+                f"{C.f2h(ctor['base']) if ctor.get('base') is not None else 'nan'}")
+        try:
+            t = getattr(T, cls)(**ctor)
+        except Exception as e:  # noqa  (constructor validation: accepted vs rejected is compared)
+            hist_reqs.append(head)
+            hist_impl.append({"cls": cls, "ctor": ctor, "ctor_err": type(e).__name__, "steps": []})
+            return
+        o = Obj.around(np, cls, ctor, t)
+        pn, cn = [str(n) for n in t.params.names], [str(n) for n in t.constants.names]
+        steps = [{"tok": None, "kind": "d", "state": tstate(t)}]
+        toks = []
+        P_acc = o.P()
+        pending = None          # (xs, ys) of the last forward call, waiting for its backward
+        script = []
+        if k % 3 == 0 and pn:
+            # branch-first script: a valid whole-vector assignment, forward, a REJECTED whole-vector assignment that holds
+            # new valid values next to the NaN, then backward on what forward returned
+            script = ["pv-ok", "f", "pv-nan", "b-pending", "pv-short", "sa-nan", "j"]
+        if cn and k % 4 != 1:
+            script = ["cset"] + script           # most histories start by setting the constant (it is NaN until set)
+        for step in range(nops):
+            what = script[step] if step < len(script) else rng.choice(
+                ["set", "set", "set", "pv-ok", "fault", "fault", "unset", "reset", "junk", "f", "f", "b", "j", "c", "b-pending"])
+            st0 = tstate(t)
+            tok, fn, arr, call = None, None, None, None
+            names = pn + cn
+            if what in ("set", "pv-ok", "cset") and names:
+                if what == "pv-ok" or (what == "set" and rng.random() < 0.25):
+                    which = "p" if (pn and (what == "pv-ok" or not cn or rng.random() < 0.7)) else "c"
+                    ns = pn if which == "p" else cn
+                    vs = [hvalue(cls, n, ctor) for n in ns]
+                    tok = f"{which}v:{C.flist(vs)}"
+                    src = np.array(vs, dtype=np.float64)
+                    vec = t.params if which == "p" else t.constants
+                    def fn(vec=vec, src=src):
+                        vec.values = src
+                        src[...] = 777.0        # the caller reuses its array: the object must hold its own copy
+                else:
+                    n = rng.choice(cn if what == "cset" else names)
+                    v = hvalue(cls, n, ctor)
+                    route = rng.choice(["sa", "si", "sp" if n in pn else "sc"])
+                    tok = f"{route}:{n}:{C.f2h(v)}"
+                    fn = {"sa": lambda: setattr(t, n, v), "si": lambda: t.__setitem__(n, v),
+                          "sp": lambda: t.params.__setitem__(n, v), "sc": lambda: t.constants.__setitem__(n, v)}[route]
+            elif what in ("fault", "pv-nan", "pv-short", "sa-nan"):
+                kind = {"pv-nan": "vnan", "pv-short": "vlen", "sa-nan": "nan"}.get(what) or \
+                    rng.choice(["nan", "nan", "vnan", "vnan", "vlen", "key"])
+                if kind == "nan" and pn:
+                    n = rng.choice(pn)
+                    route = rng.choice(["sa", "si", "sp"])
+                    tok = f"{route}:{n}:nan"
+                    fn = {"sa": lambda: setattr(t, n, NAN), "si": lambda: t.__setitem__(n, NAN),
+                          "sp": lambda: t.params.__setitem__(n, NAN)}[route]
+                elif kind == "vnan" and pn:
+                    vs = [hvalue(cls, n, ctor) for n in pn]
+                    vs[rng.randrange(len(vs))] = NAN
+                    tok = f"pv:{C.flist(vs)}"
+                    fn = lambda: setattr(t.params, "values", np.array(vs, dtype=np.float64))
+                elif kind == "vlen":
+                    which = "p" if (not cn or rng.random() < 0.6) else "c"
+                    ns = pn if which == "p" else cn
+                    m = rng.choice([len(ns) + 1, len(ns) + 2, max(0, len(ns) - 1)] + ([0] if ns else []))
+                    vs = [hvalue(cls, ns[j % len(ns)], ctor) if ns else rng.random() for j in range(m)]
+                    tok = f"{which}v:{C.flist(vs)}"
+                    vec = t.params if which == "p" else t.constants
+                    fn = lambda: setattr(vec, "values", vs)
+                else:
+                    route = rng.choice(["si", "sp", "sc"])
+                    key = rng.choice(["foo", "Lam", "nu ", "x"])
+                    if key in names:
+                        key = "foo"
+                    v = rng.uniform(-1, 1)
+                    tok = f"{route}:{key.replace(' ', '_')}:{C.f2h(v)}"
+                    key_ = key.replace(" ", "_")
+                    fn = {"si": lambda: t.__setitem__(key_, v), "sp": lambda: t.params.__setitem__(key_, v),
+                          "sc": lambda: t.constants.__setitem__(key_, v)}[route]
+            elif what == "unset" and cn:
+                n = rng.choice(cn)
+                route = rng.choice(["sa", "si", "sc", "cv"])
+                if route == "cv":
+                    tok = f"cv:{C.flist([NAN] * len(cn))}"
+                    fn = lambda: setattr(t.constants, "values", [NAN] * len(cn))
+                else:
+                    tok = f"{route}:{n}:nan"
+                    fn = {"sa": lambda: setattr(t, n, NAN), "si": lambda: t.__setitem__(n, NAN),
+                          "sc": lambda: t.constants.__setitem__(n, NAN)}[route]
+            elif what == "reset":
+                tok, fn = "rs", t.reset
+            elif what == "junk":
+                v = rng.uniform(-1, 1)
+                tok = f"sa:foo:{C.f2h(v)}"
+                fn = lambda: setattr(t, "foo", v)
+            if tok is None and fn is None:
+                # a call
+                if what == "b-pending" and pending is not None:
+                    call, arr = "bwd", pending[1]
+                elif what in ("f", "b-pending", "set", "pv-ok", "fault", "pv-nan", "sa-nan", "unset"):
+                    call, arr = "fwd", [v for v in x_inputs(cls, P_acc, rng, 12)][:12]
+                elif what == "b":
+                    call, arr = "bwd", y_extra(cls, P_acc, rng, 8)[:12]
+                elif what == "c" and cls not in NOCENS:
+                    call, arr = "cens", y_extra(cls, P_acc, rng, 8)[:10]
+                else:
+                    call, arr = "jac", [v for v in x_inputs(cls, P_acc, rng, 12)][:12]
+            rec = {"what": what, "before": st0}
+            if call is not None:
+                cz = float(rng.choice([0.0, 0.1] + [v for v in x_inputs(cls, P_acc, rng, 8)[:4] if v == v])) if call == "cens" else None
+                tok = {"fwd": "f", "bwd": "b", "jac": "j"}.get(call, "c") + (f":{C.f2h(cz)}" if call == "cens" else "") + ":" + C.flist(arr)
+                status, payload = o.call(call, arr, cz)
+                o.after_call(status)
+                rec.update({"kind": "v" if status == "ok" else "e", "op": call, "inputs": [float(v) for v in arr], "censor": cz,
+                            "values": [float(v) for v in payload] if status == "ok" else None,
+                            "error": payload if status != "ok" else None, "P": P_acc})
+                if status == "ok" and call == "fwd":
+                    pending = (list(arr), [float(v) for v in payload])
+                elif status == "ok" and call == "bwd" and what == "b-pending" and pending is not None:
+                    for a, m_, bk in zip(pending[0], pending[1], payload):
+                        judge(cls, P_acc, "x", a, m_, float(bk), "x")
+                    pending = None
+                if status != "ok" and not any(v != v for v in tstate(t)[1]) and not payload.startswith("shape"):
+                    ctx.finding(f"{cls}/{call}/raises_on_valid_setting",
+                                "a call on a transform whose parameters and constants were all set raises " + str(payload),
+                                {"class": cls, "ctor": ctor, "actual": o.P(), "op": call, "error": payload,
+                                 "history": toks + [tok]})
+            else:
+                try:
+                    fn()
+                    rec["kind"] = "d"
+                except Exception as e:  # noqa  (accepted vs rejected is compared, not the exception class / text)
+                    rec["kind"] = "r"
+                    rec["error"] = type(e).__name__ + ": " + str(e)[:60]
+            st1 = tstate(t)
+            rec.update({"tok": tok, "state": st1})
+            toks.append(tok)
+            steps.append(rec)
+            if rec["kind"] in ("r", "e") and hx(st1) != hx(st0):
+                # oracle: a refused assignment (or a call that raised) leaves the last accepted setting in place
+                back = None
+                try:
+                    xs_ = [v for v in x_inputs(cls, P_acc, rng, 8) if v == v][:5]
+                    sf, yf = o.call("fwd", xs_)
+                    if sf == "ok":
+                        sb, xb = o.call("bwd", [float(v) for v in yf])
+                        back = {"x": xs_, "backward(forward(x))": [float(v) for v in xb] if sb == "ok" else xb}
+                    else:
+                        back = {"x": xs_, "forward": yf}
+                except Exception as e:  # noqa
+                    back = {"exception": type(e).__name__}
+                ctx.finding(f"{cls}/rejected_assignment/state_changed",
+                            "an assignment that was refused (the call raised) changed the parameters / constants of the "
+                            "object: the last accepted setting is lost and the round trip no longer returns x",
+                            {"class": cls, "ctor": ctor, "history": toks, "refused": tok, "error": rec.get("error"),
+                             "values_before": {"params": st0[0], "constants": st0[1], "inner": st0[2]},
+                             "values_after": {"params": st1[0], "constants": st1[1], "inner": st1[2]},
+                             "last_accepted_setting": P_acc, "round_trip_after": back})
+                pending = None
+            if rec["kind"] == "d":
+                P_acc = o.P()
+                if hx(st1[:2]) != hx(st0[:2]):
+                    pending = None
+        hist_reqs.append(head + "".join(" " + tk for tk in toks))
+        hist_impl.append({"cls": cls, "ctor": ctor, "ctor_err": None, "steps": steps})
+
+    for cls in HCLS:
+        for k in range(ctx.scale(14, 90)):
+            guarded(cls, "history", lambda: one_history(cls, k, ctx.scale(12, 16)))
+
+    def hist_elem_ok(cls, opn, P, inputs, k, a, m, e, tcensor=None, censor=None):
+        """True / False / None (not compared): same rule as the main correspondence"""
+        if opn == "cens":
+            if (a != a) != (m != m):
+                return None
+        elif inputs is not None and in_domain(cls, opn, P, inputs[k]) is False:
+            return None
+        if a != a or m != m:
+            return (a != a) == (m != m)
+        if a == m:
+            return True
+        if not fin(a) or not fin(m) or not fin(e):
+            return None if not (fin(e) and (fin(a) != fin(m))) else False
+        return abs(a - m) <= 2 * e or C.ulp_diff(a, m) <= 4
+
+    for rq, im, rp in zip(hist_reqs, hist_impl, ctx.lean.ask(hist_reqs)):
+        cls = im["cls"]
+        case0 = {"class": cls, "ctor": im["ctor"], "request": rq[:400]}
+        if im["ctor_err"] is not None or rp.startswith("ctor-err"):
+            ctx.count(("hist-ctor", rq), False, f"hist/{cls}/ctor-rejected")
+            if (im["ctor_err"] is not None) != rp.startswith("ctor-err"):
+                ctx.disagree(f"{cls}: constructor accepted by one side, rejected by the other",
+                             {**case0, "impl": im["ctor_err"] or "accepted", "model": rp[:60]})
+            continue
+        mt = rp.split()
+        if mt[0] != "ok" or len(mt) != len(im["steps"]) + 2:
+            ctx.disagree(f"{cls}: history not understood by the model driver", {**case0, "model": rp[:200]})
+            continue
+        last = None
+        for j, (stp, tk) in enumerate(zip(im["steps"], mt[1:-1])):
+            parts = tk.split(";")
+            mkind = parts[0][0]
+            if len(parts) < 5:
+                ctx.disagree(f"{cls}: history step not evaluated by the model ({tk[:40]})", {**case0, "step": j, "op": stp["tok"]})
+                break
+            mstate = [[x for x in C.parse_list(q)] for q in parts[1:5]]
+            last = mstate
+            ctx.count(("hist", rq, j), stp["kind"] in ("d", "v"), f"hist/{cls}/{ {'d': 'accepted', 'r': 'rejected', 'e': 'raised', 'v': 'values'}[stp['kind']] }")
+            if mkind != stp["kind"]:
+                ctx.disagree(f"{cls}: an operation of a history is {'accepted' if stp['kind'] in 'dv' else 'refused'} by the "
+                             f"implementation and {'accepted' if mkind in 'dv' else 'refused'} by the model",
+                             {**case0, "step": j, "op": stp["tok"], "impl": stp["kind"] + ":" + str(stp.get("error")), "model": parts[0]})
+                break
+            if hx(stp["state"]) != mstate:
+                ctx.disagree(f"{cls}: parameter / constant / inner values after an operation of a history differ",
+                             {**case0, "step": j, "op": stp["tok"], "impl": stp["state"],
+                              "model": [[C.h2f(x) for x in l] for l in mstate]})
+                break
+            if mkind == "v":
+                mv, me = C.parse_flist(parts[5]), C.parse_flist(parts[6])
+                iv = stp["values"]
+                if len(iv) != len(mv):
+                    ctx.disagree(f"{cls}.{stp['op']}: result shapes differ (history)", {**case0, "step": j, "op": stp["tok"]})
+                    break
+                bad = None
+                for q, (a, m, e) in enumerate(zip(iv, mv, me)):
+                    ok_ = hist_elem_ok(cls, stp["op"], stp["P"], stp["inputs"], q, a, m, e)
+                    stats["elements"] += 1
+                    if ok_ is False:
+                        bad = (q, a, m, e)
+                        break
+                if bad is not None:
+                    ctx.disagree(f"{cls}.{stp['op']}: implementation and model differ beyond the condition-scaled tolerance (history)",
+                                 {**case0, "step": j, "op": stp["tok"], "element": bad[0], "impl": bad[1], "model": bad[2], "bound": bad[3]})
+                    break
+        else:
+            fin_ = mt[-1].split(";")
+            if last is not None and [C.parse_list(q) for q in fin_[1:5]] != last:
+                ctx.disagree(f"{cls}: TObj.run on the whole history ends in another state than the step-by-step evaluation",
+                             {**case0, "model": mt[-1][:200]})
+
+    # ---------------- get_transform(name, **kwargs) against `getTransform` of the object model: constructor options,
+    # parameters / constants inside, on and outside their bounds, junk keywords, a NaN for a parameter (rejected)
+    gk_reqs, gk_impl = [], []
+    for cls in HCLS + ["Softmax"]:
+        for k in range(ctx.scale(10, 60)):
+            ctor = hctor(cls, k) if cls != "Softmax" else {}
+            try:
+                names = list(getattr(T, cls)().params.names) + list(getattr(T, cls)().constants.names)
+            except Exception:  # noqa
+                names = []
+            kw = {}
+            for n in names:
+                if rng.random() < 0.7:
+                    kw[str(n)] = NAN if rng.random() < 0.06 else hvalue(cls, str(n), ctor)
+            if rng.random() < 0.3:
+                kw["foo"] = rng.uniform(-1, 1)
+            items = list(kw.items())
+            rng.shuffle(items)
+            gk_reqs.append(f"getkw {cls} {C.f2h(ctor.get('mininu', EPS))} {C.f2h(ctor.get('minilam', 0.0))} "
+                           f"{C.f2h(ctor['base']) if ctor.get('base') is not None else 'nan'}"
+                           + "".join(f" {a}:{C.f2h(b)}" for a, b in items))
+            try:
+                t = T.get_transform(cls, **ctor, **dict(items))
+                gk_impl.append("ok " + ";".join("[" + ",".join(C.f2h(v) for v in l) + "]" for l in tstate(t)))
+            except Exception:  # noqa  (rejected: a constructor option or a NaN parameter)
+                gk_impl.append("ctor-err")
+    for rq, im, rp in zip(gk_reqs, gk_impl, ctx.lean.ask(gk_reqs)):
+        ctx.count(("getkw", rq), im.startswith("ok"), "get_transform/instance/" + ("ok" if im.startswith("ok") else "rejected"))
+        if (rp.split()[0] if rp.startswith("ctor-err") else rp) != im:
+            ctx.disagree("get_transform: the instance does not hold the values the model's getTransform gives",
+                         {"request": rq, "impl": im, "model": rp})
+
     # ---------------- dense sweeps of lam through the branch switches
     nsw = ctx.scale(60, 700)
     sweeps = []
@@ -1236,6 +1645,11 @@ def body(ctx):
         sm_report("bwd", stx, xx, yrows, True)
         sm_queue("bwd", stx, xx, yrows, "y")
         if stx == "ok":
+            # Softmax.rounded_backward_range (Props/C01.lean, any monotone rounding): every entry of backward lies in [0, 1]
+            stats["rounded_statements_checked"] += 1
+            if not all(0.0 <= float(v) <= 1.0 for v in xx.ravel()):
+                ctx.disagree("Softmax.backward returned an entry outside [0, 1]: the floating-point code does not meet the "
+                             "rounded-model statement Softmax.rounded_backward_range", {"rows": yrows, "impl": [float(v) for v in xx.ravel()]})
             sty, yy = sm_call("fwd", xx)
             xrows = [[float(v) for v in r] for r in xx]
             sm_report("fwd", sty, yy, xrows, inside)
@@ -1246,6 +1660,9 @@ def body(ctx):
                             if not (fin(float(bk)) and abs(float(bk) - a) <= 1e-6 * max(abs(a), 1.0)):
                                 ctx.finding("Softmax/roundtrip_y/row", "forward(backward(y)) differs from y by more than 1e-6",
                                             {"rows": yrows, "shape": [nrow, ncol], "y": a, "back": float(bk)})
+            elif sty == "err" and yy == "negative":
+                ctx.disagree("Softmax.forward refused backward(y) for a negative entry: excluded for every monotone rounding by "
+                             "Softmax.rounded_forward_backward_not_negative", {"rows": yrows})
             elif sty == "err" and inside:
                 ctx.finding("Softmax/roundtrip_y/rejected", "forward rejects backward(y) although sum exp(y) <= 1e6",
                             {"rows": yrows, "shape": [nrow, ncol], "error": yy})
@@ -1444,13 +1861,19 @@ def body(ctx):
 
     ctx.extra["rule"] = __doc__.split("Cases:")[1].strip()
     ctx.extra["oracle_regions"] = REGIONS.strip()
+    ctx.extra["oracle_margin"] = {k: float(f"{v:.3g}") for k, v in sorted(margins.items())}   # max |error| / tolerance
+    ctx.extra["rounded_statements_checked_on_the_real_code"] = stats["rounded_statements_checked"]
     ctx.extra["unconstrained_elements"] = stats["unconstrained"]
     ctx.extra["object_copies_exercised"] = stats["clones"]
     ctx.extra["object_copies_unavailable"] = stats["clone_unavailable"]   # copy.deepcopy / pickle raise (Vector; C12)
     ctx.extra["outside_domain_not_compared"] = stats["outside_domain_not_compared"]
     ctx.extra["max_impl_model_difference_over_bound"] = stats["max_diff_over_bound"]   # accepted up to 2
     ctx.assumptions += [
-        "parameter values are read back from the object after assignment (clipping to bounds is C12's subject)",
+        "single calls: parameter values are read back from the object after assignment; the assignment itself (NaN refusal, "
+        "length check, clipping to the declared bounds, reset, read-back) is modelled in Model/C01Obj.lean and compared on the "
+        "object histories; +-inf and non-numeric values are never assigned",
+        "the rounded-arithmetic theorems (Rd M) assume a monotone rounding with rnd 0 = 0, rnd 1 = 1, rnd(-x) = -rnd x and a "
+        "non-negative library exp; their conclusions are also checked on the real code (rounded_statements_checked_on_the_real_code)",
         "numpy exp/log/power/sinh/arcsinh/tanh vs libm: compared within 1e-13 relative per call, propagated",
         "Softmax rows have at most 7 columns (numpy sums short rows left to right; longer rows use pairwise summation)",
         "inputs are 1-D float64 arrays (2-D for Softmax); python scalars only as the censor of backward_censored",
